@@ -851,5 +851,36 @@ theorem head_iff_earlier_removed {α : Type} {reqs pending : List α} (hnd : req
         rw [List.nodup_append] at hnd
         exact (List.nodup_cons.1 hnd.2.1).1 hxpost
 
+theorem programOrder_pairwise {l : List Req} (h : programOrder l = true) :
+    l.Pairwise (fun a b => key a < key b) := by
+  induction l with
+  | nil => exact List.Pairwise.nil
+  | cons r rest ih => exact List.pairwise_cons.2 ⟨programOrder_key_lt h, ih (programOrder_tail h)⟩
+
+/-- in program order nothing is registered between an owner's read and its write -/
+theorem own_pair_adjacent {reqs rest : List Req} {o : Nat} (hpo : programOrder reqs = true)
+    (hsub : ((false, o) :: (true, o) :: rest).Sublist reqs) :
+    ∃ pre post, reqs = pre ++ (false, o) :: (true, o) :: post := by
+  have hnd := programOrder_nodup hpo
+  have hpw := programOrder_pairwise hpo
+  obtain ⟨pre, post1, hreqs⟩ := List.append_of_mem (hsub.subset (List.mem_cons_self ..))
+  subst hreqs
+  have hx : ((false, o) : Req) ∉ pre := by
+    rw [List.nodup_append] at hnd
+    exact fun hm => hnd.2.2 _ hm _ (List.mem_cons_self ..) rfl
+  have ht := sublist_tail_of_cons_sublist_append hsub hx
+  obtain ⟨mid, post, hpost⟩ := List.append_of_mem (ht.subset (List.mem_cons_self ..))
+  subst hpost
+  cases mid with
+  | nil => exact ⟨pre, post, rfl⟩
+  | cons m ms =>
+    exfalso
+    rw [List.pairwise_append] at hpw
+    have h1 := List.pairwise_cons.1 hpw.2.1
+    have hlo : key (false, o) < key m := h1.1 m (by simp)
+    have hhi : key m < key (true, o) := (List.pairwise_cons.1 h1.2).1 (true, o) (by simp)
+    simp only [key, Bool.toNat_false, Bool.toNat_true] at hlo hhi
+    omega
+
 end QueueLemmas
 end ProcSim
